@@ -74,6 +74,7 @@ def random_script(rng, kind, elem, cap, nops, old_iface=False, old_vec=False):
                 s = [rng.randrange(1, 100) for _ in range(rng.randrange(0, (2 * cap + 1) if cap else 7))]
                 il = 1 if not old_vec and len(s) <= 5 and rng.random() < 0.5 else 0
                 if kind == "svec" and not old_iface and rng.random() < 0.25: il = 2
+                elif not old_iface and rng.random() < 0.2: il = 3           # pointers to a class derived from the element type
                 lines.append("CreateFrom %d %s %d" % (c, fmt(s), il)); ex[c] = True; el[c] = cut(s)
             elif r < 0.85: lines.append("CopyCtor %d %d" % (c, d)); ex[c] = True; el[c] = list(el[d])
             else:
